@@ -284,6 +284,13 @@ pub enum Op {
     DrainChildren(u8),
     Yield,
     Sleep(u16),
+    /// timers (C12): `derived` uses the DerivedActorRef variant
+    SendAfter { to: u8, ms: u16, derived: bool },
+    SendInterval { to: u8, ms: u16, derived: bool },
+    ExitAfter { to: u8, ms: u16 },
+    KillAfter { to: u8, ms: u16 },
+    AbortTimer(u8),
+    AwaitTimer(u8),
 }
 
 // ---------------------------------------------------------------------------------
@@ -296,6 +303,27 @@ pub enum Msg {
     Fwd(u64),
 }
 impl ractor::Message for Msg {}
+
+/// a message type convertible into `Msg`, for DerivedActorRef
+pub struct DMsg {
+    pub sender: u16,
+    pub seq: u32,
+}
+impl ractor::Message for DMsg {}
+impl From<DMsg> for Msg {
+    fn from(d: DMsg) -> Msg {
+        Msg::Num { sender: d.sender, seq: d.seq }
+    }
+}
+impl TryFrom<Msg> for DMsg {
+    type Error = ();
+    fn try_from(m: Msg) -> Result<DMsg, ()> {
+        match m {
+            Msg::Num { sender, seq } => Ok(DMsg { sender, seq }),
+            _ => Err(()),
+        }
+    }
+}
 
 /// a second message type, for wrong-typed sends
 pub struct OtherMsg(pub u32);
@@ -313,7 +341,17 @@ pub struct Slot {
     pub spawning: bool,
 }
 
+pub enum TimerH {
+    After(JoinHandle<Result<(), MessagingErr<Msg>>>),
+    AfterD(JoinHandle<Result<(), MessagingErr<DMsg>>>),
+    Unit(JoinHandle<()>),
+    Taken,
+}
+
+pub const TIMER_SENDER_BASE: u16 = 2000;
+
 pub struct World {
+    pub timers: Mutex<Vec<TimerH>>,
     pub prefix: String,
     pub specs: Vec<ActorSpec>,
     pub slots: Mutex<Vec<Slot>>,
@@ -328,6 +366,7 @@ impl World {
         let n = CASE_NO.fetch_add(1, Ordering::Relaxed);
         let slots = (0..specs.len()).map(|_| Slot::default()).collect();
         Arc::new(World {
+            timers: Mutex::new(vec![]),
             prefix: format!("v{}_{}_", std::process::id(), n),
             specs,
             slots: Mutex::new(slots),
@@ -1111,6 +1150,106 @@ pub async fn exec_op(w: &Arc<World>, c: usize, i: usize, op: &Op) -> Res {
             cell!(a).drain_children();
             Res::Unit
         }
+        Op::SendAfter { to, ms, derived } => {
+            let cell = cell!(to);
+            let tid = w.timers.lock().unwrap().len();
+            let sender = TIMER_SENDER_BASE + tid as u16;
+            if *derived {
+                let d: ractor::DerivedActorRef<DMsg> = cell.get_derived();
+                let h = d.send_after(Duration::from_millis(*ms as u64), move || {
+                    log(Ev::Note(format!("fire {tid} 0")));
+                    DMsg { sender, seq: 0 }
+                });
+                w.timers.lock().unwrap().push(TimerH::AfterD(h));
+            } else {
+                let h = cell.send_after(Duration::from_millis(*ms as u64), move || {
+                    log(Ev::Note(format!("fire {tid} 0")));
+                    Msg::Num { sender, seq: 0 }
+                });
+                w.timers.lock().unwrap().push(TimerH::After(h));
+            }
+            Res::Found(tid as i64)
+        }
+        Op::SendInterval { to, ms, derived } => {
+            let cell = cell!(to);
+            let tid = w.timers.lock().unwrap().len();
+            let sender = TIMER_SENDER_BASE + tid as u16;
+            let n = Arc::new(std::sync::atomic::AtomicU32::new(0));
+            let h = if *derived {
+                let d: ractor::DerivedActorRef<DMsg> = cell.get_derived();
+                d.send_interval(Duration::from_millis((*ms).max(1) as u64), move || {
+                    let k = n.fetch_add(1, Ordering::Relaxed) + 1;
+                    log(Ev::Note(format!("fire {tid} {k}")));
+                    DMsg { sender, seq: k }
+                })
+            } else {
+                cell.send_interval(Duration::from_millis((*ms).max(1) as u64), move || {
+                    let k = n.fetch_add(1, Ordering::Relaxed) + 1;
+                    log(Ev::Note(format!("fire {tid} {k}")));
+                    Msg::Num { sender, seq: k }
+                })
+            };
+            w.timers.lock().unwrap().push(TimerH::Unit(h));
+            Res::Found(tid as i64)
+        }
+        Op::ExitAfter { to, ms } => {
+            let cell = cell!(to);
+            let tid = w.timers.lock().unwrap().len();
+            let h = cell.exit_after(Duration::from_millis(*ms as u64));
+            w.timers.lock().unwrap().push(TimerH::Unit(h));
+            Res::Found(tid as i64)
+        }
+        Op::KillAfter { to, ms } => {
+            let cell = cell!(to);
+            let tid = w.timers.lock().unwrap().len();
+            let h = cell.kill_after(Duration::from_millis(*ms as u64));
+            w.timers.lock().unwrap().push(TimerH::Unit(h));
+            Res::Found(tid as i64)
+        }
+        Op::AbortTimer(k) => {
+            let g = w.timers.lock().unwrap();
+            match g.get(*k as usize) {
+                Some(TimerH::After(h)) => {
+                    h.abort();
+                    Res::Ok
+                }
+                Some(TimerH::AfterD(h)) => {
+                    h.abort();
+                    Res::Ok
+                }
+                Some(TimerH::Unit(h)) => {
+                    h.abort();
+                    Res::Ok
+                }
+                _ => Res::Skipped,
+            }
+        }
+        Op::AwaitTimer(k) => {
+            let h = {
+                let mut g = w.timers.lock().unwrap();
+                match g.get_mut(*k as usize) {
+                    Some(t) => std::mem::replace(t, TimerH::Taken),
+                    None => TimerH::Taken,
+                }
+            };
+            match h {
+                TimerH::After(h) => match h.await {
+                    Ok(Ok(())) => Res::Ok,
+                    Ok(Err(e)) => send_res::<Msg>(&Err(e)),
+                    Err(e) => Res::Err(if e.is_cancelled() { "cancelled".into() } else { "panic".into() }),
+                },
+                TimerH::AfterD(h) => match h.await {
+                    Ok(Ok(())) => Res::Ok,
+                    Ok(Err(e)) => send_res::<DMsg>(&Err(e)),
+                    Err(e) => Res::Err(if e.is_cancelled() { "cancelled".into() } else { "panic".into() }),
+                },
+                TimerH::Unit(h) => match h.await {
+                    Ok(()) => Res::Ok,
+                    Err(e) => Res::Err(if e.is_cancelled() { "cancelled".into() } else { "panic".into() }),
+                },
+                TimerH::Taken => Res::Skipped,
+            }
+        }
         Op::Yield => {
             yield_once().await;
             Res::Unit
@@ -1357,11 +1496,12 @@ pub struct Exec {
 pub struct ExecOpts {
     pub settle: bool,
     pub sweep_kill: bool,
+    pub jitter: bool,
 }
 
 impl Default for ExecOpts {
     fn default() -> Self {
-        ExecOpts { settle: true, sweep_kill: true }
+        ExecOpts { settle: true, sweep_kill: true, jitter: false }
     }
 }
 
@@ -1374,6 +1514,7 @@ pub fn exec_scenario(
 ) -> Exec {
     let sc2 = sc.clone();
     run_in_runtime(&sc.schedule, |mut env| async move {
+        env.sched.jitter = opts.jitter;
         let w = World::new(sc2.specs.clone());
         if sc2.specs.iter().any(|s| s.variant().is_tl()) {
             w.init_tl();
